@@ -109,7 +109,7 @@ func TestVerifC16(t *testing.T) {
 				if c.kind == "forbidden-here-only" || c.kind == "remote-name-mapped-to-forbidden" {
 					pads := []string{"skippable-event-before", "skippable-event-after"}
 					if vrt.PathBlobField(p) != "" {
-						pads = append(pads, "json-encoded-blob", "skippable-event-before+json-encoded-blob")
+						pads = append(pads, "json-encoded-blob", "skippable-event-before+json-encoded-blob", "empty-batch-before")
 						// (event types every older server knows: the repair decodes the batch with the legacy schema)
 						switch vrt.PathEventType(p) {
 						case "EVENT_TYPE_SIGNAL_EXTERNAL_WORKFLOW_EXECUTION_INITIATED", "EVENT_TYPE_START_CHILD_WORKFLOW_EXECUTION_INITIATED",
@@ -234,6 +234,8 @@ func vfBuildAtPadded(root vfRoot, p vrt.Path, value string, pad string) proto.Me
 		o.SiblingBlob, o.SiblingValue = "before", "some-other-namespace"
 	case "unmatched-batch-after":
 		o.SiblingBlob, o.SiblingValue = "after", "some-other-namespace"
+	case "empty-batch-before":
+		o.SiblingBlob = "empty-before"
 	}
 	return vrt.BuildForPath(root.MD, p, o)
 }
